@@ -117,6 +117,8 @@ def campaign(c):
         check(c, n, reqs, n % 2 == 1, dict(id=n * 257 % 65536) if n % 3 else {}, 'grid')
     c.extra['exhaustive_space'] = 'all (n, off, len) with n <= %d, 8*off <= n, len <= ceil(n/8)+1, plus tail(off) and datagram()' % nmax
     c.exhaustive = False
+    for n in ([8192, 9004, 65515] if c.quick else [8191, 8192, 8193, 9004, 16384, 16385, 32768, 65515]):
+        check(c, n, [('t', 0, 0), ('t', n // 16, 0), ('f', 0, n // 8 + 1), ('f', 1, 8192), ('f', 0, 65535), ('d', 0, 0)], False, dict(id=7), 'big')
     m = 60 if c.quick else 800
     for i in range(m):
         r = c.rng.fork('frag%d' % i)
@@ -135,6 +137,7 @@ def campaign(c):
         if r.chance(1, 4): reqs.append(('f', r.below(n // 8 + 1), 0))
         if r.chance(1, 4) and reqs: reqs.append(r.choice(reqs))
         if r.chance(1, 6): reqs.append(('d', 0, 0))
+        if r.chance(1, 3): reqs.append(('f', r.below(n // 8 + 1), r.choice([8191, 8192, 8193, 16384, 32768, 65535, 8192 + r.below(57000)])))   # over-long requests
         if n == 0: reqs.append(('d', 0, 0))
         # shuffle
         for j in range(len(reqs) - 1, 0, -1):
